@@ -25,19 +25,41 @@ example : calculate .div 7 2 = some 3 ∧ cSem .div 7 2 = some 3 := by decide
 example : calculate .div 7 (-2) = none ∧ cSem .div 7 (-2) = some (-3) := by decide
 example : calculate .add (2 ^ 63 - 1) 1 = some (-(2 ^ 63)) ∧ cSem .add (2 ^ 63 - 1) 1 = none := by decide
 
-/-- full statement of soundness of `infer` for the operators it is called with (`-` and the comparisons):
-    every Known / Impossible result holds of `a op b` whenever every Known / Impossible input value holds of `a` resp. `b`
-    and all bounds are small enough for `long long` arithmetic not to overflow. -/
-def InferSound : Prop :=
+/-- **infer_sound** (main theorem, current code = commit 8842d71).  For the operators `infer` is called with (`-` and the
+    comparisons): every Known / Impossible result holds of `a op b` whenever every Known / Impossible INT input value holds of
+    `a` resp. `b` and all bounds are small enough (`|v| < 2^62 - 1`) for the unchecked `long long` bound arithmetic not to
+    overflow.  Possible / Inconclusive input values are unconstrained. -/
+theorem infer_sound (op : Op) (hop : op.isComparison = true ∨ op = .sub) (L R : List Value) (a b : Int)
+    (hLs : ∀ v ∈ L, v.isInt = true → v.small) (hRs : ∀ v ∈ R, v.isInt = true → v.small)
+    (ha : ∀ v ∈ L, v.isInt = true → v.hard = true → v.holds a)
+    (hb : ∀ v ∈ R, v.isInt = true → v.hard = true → v.holds b) :
+    ∀ r ∈ infer op L R, r.hard = true → r.holds (opSem op a b) := by
+  intro r hr hh
+  have h := infer_core op hop L R a b hLs hRs ha hb true r hr
+  unfold Value.hard at hh
+  cases hk : r.kind <;> simp [hk] at hh
+  · exact h.1 hk
+  · exact h.2 hk (Or.inl rfl)
+
+-- the hypotheses are satisfiable on a non-trivial input: x in [3, 7] (with an unconstrained Possible value), y = 2
+example : (∀ v ∈ [({ kind := .impossible, bound := .upper, intvalue := 2 } : Value), { kind := .impossible, bound := .lower, intvalue := 8 },
+        { kind := .possible, bound := .point, intvalue := 99 }], v.isInt = true → v.hard = true → v.holds 4) ∧
+    infer .sub [{ kind := .impossible, bound := .upper, intvalue := 2 }, { kind := .impossible, bound := .lower, intvalue := 8 },
+        { kind := .possible, bound := .point, intvalue := 99 }]
+      [{ kind := .known, bound := .point, intvalue := 2 }] =
+      [{ kind := .impossible, bound := .upper, intvalue := 0 }] := by
+  decide
+
+/-- the same statement about `infer` as it was BEFORE commit 8842d71 (`inferPreFix`) … -/
+def InferSoundPreFix : Prop :=
   ∀ (op : Op) (L R : List Value) (a b : Int), (op.isComparison = true ∨ op = .sub) →
     (∀ v ∈ L, v.isInt = true → v.small) → (∀ v ∈ R, v.isInt = true → v.small) →
     (∀ v ∈ L, v.isInt = true → v.hard = true → v.holds a) → (∀ v ∈ R, v.isInt = true → v.hard = true → v.holds b) →
-    ∀ r ∈ infer op L R, r.hard = true → r.holds (opSem op a b)
+    ∀ r ∈ inferPreFix op L R, r.hard = true → r.holds (opSem op a b)
 
-/-- the full statement is false of the code: for `-` the Impossible bounds are emitted without `setValueKind`, so a bound
-    that rests on a merely Possible value is reported as a claim (F20).  Witness: lhs = [Possible 5], rhs = [Impossible ≤ -1],
-    a = 100, b = 0: `infer` answers "a - b is never ≥ 6". -/
-theorem infer_sound_counterexample : ¬ InferSound := by
+/-- … was false (finding F20, fixed): for `-` the Impossible bounds were emitted without looking at the kind of the values they
+    rest on.  Witness: lhs = [Possible 5], rhs = [Impossible ≤ -1], a = 100, b = 0: the old code answered "a - b is never ≥ 6". -/
+theorem infer_sound_counterexample : ¬ InferSoundPreFix := by
   intro h
   have := h .sub [{ kind := .possible, bound := .point, intvalue := 5 }] [{ kind := .impossible, bound := .upper, intvalue := -1 }]
     100 0 (Or.inr rfl) (by decide) (by decide) (by decide) (by decide)
@@ -45,37 +67,23 @@ theorem infer_sound_counterexample : ¬ InferSound := by
   revert this
   decide
 
-/-- Known results of `infer` are sound without any further hypothesis on the Possible values … -/
-theorem infer_known_sound (op : Op) (hop : op.isComparison = true ∨ op = .sub) (L R : List Value) (a b : Int)
-    (hLs : ∀ v ∈ L, v.isInt = true → v.small) (hRs : ∀ v ∈ R, v.isInt = true → v.small)
-    (ha : ∀ v ∈ L, v.isInt = true → v.hard = true → v.holds a)
-    (hb : ∀ v ∈ R, v.isInt = true → v.hard = true → v.holds b) :
-    ∀ r ∈ infer op L R, r.kind = .known → r.holds (opSem op a b) :=
-  fun r hr hk => (infer_core op hop L R a b hLs hRs ha hb r hr).1 hk
+-- the current code no longer produces that result
+example : infer .sub [{ kind := .possible, bound := .point, intvalue := 5 }] [{ kind := .impossible, bound := .upper, intvalue := -1 }] = [] := by
+  decide
 
-/-- … and all results (Known and Impossible) are sound when no Possible / Inconclusive INT value takes part
-    (`allHard`), which is the excluding hypothesis for F20. -/
-theorem infer_sound_partial (op : Op) (hop : op.isComparison = true ∨ op = .sub) (L R : List Value) (a b : Int)
+/-- the pre-fix function was sound under the excluding hypothesis `allHard` (no Possible / Inconclusive INT value takes part) -/
+theorem infer_prefix_sound_partial (op : Op) (hop : op.isComparison = true ∨ op = .sub) (L R : List Value) (a b : Int)
     (hLs : ∀ v ∈ L, v.isInt = true → v.small) (hRs : ∀ v ∈ R, v.isInt = true → v.small)
     (ha : ∀ v ∈ L, v.isInt = true → v.hard = true → v.holds a)
     (hb : ∀ v ∈ R, v.isInt = true → v.hard = true → v.holds b)
     (hL : allHard L) (hR : allHard R) :
-    ∀ r ∈ infer op L R, r.hard = true → r.holds (opSem op a b) := by
+    ∀ r ∈ inferPreFix op L R, r.hard = true → r.holds (opSem op a b) := by
   intro r hr hh
-  have h := infer_core op hop L R a b hLs hRs ha hb r hr
+  have h := infer_core op hop L R a b hLs hRs ha hb false r hr
   unfold Value.hard at hh
   cases hk : r.kind <;> simp [hk] at hh
   · exact h.1 hk
-  · exact h.2 hk hL hR
-
--- the hypotheses are satisfiable on a non-trivial input: x in [3, 7], y = 2, `x - y` in [1, 5]
-example : (∀ v ∈ [({ kind := .impossible, bound := .upper, intvalue := 2 } : Value), { kind := .impossible, bound := .lower, intvalue := 8 }],
-      v.isInt = true → v.hard = true → v.holds 4) ∧
-    allHard [({ kind := .impossible, bound := .upper, intvalue := 2 } : Value), { kind := .impossible, bound := .lower, intvalue := 8 }] ∧
-    infer .sub [{ kind := .impossible, bound := .upper, intvalue := 2 }, { kind := .impossible, bound := .lower, intvalue := 8 }]
-      [{ kind := .known, bound := .point, intvalue := 2 }] =
-      [{ kind := .impossible, bound := .upper, intvalue := 0 }, { kind := .impossible, bound := .lower, intvalue := 6 }] := by
-  decide
+  · exact h.2 hk (Or.inr ⟨hL, hR⟩)
 
 /-! Part 2: constant folding of a binary operator in `setTokenValue` against the C semantics at the type of the operation (F5) -/
 
